@@ -58,7 +58,7 @@ pub fn gen_c02(tier: Tier, seed: u64) -> Case {
     let init = g.r.range(1, n_names as u64) as usize;
     let mut program = g.create_initial(init);
     // one run in twelve starts with a dozen journal files on disk (ids with one and two digits)
-    let many = n_names >= 2 && g.r.chance(1, 30);
+    let many = n_names >= 2 && g.r.chance(1, 14);
     if many {
         program = g.create_initial(2);
         let pre = g.many_journals(0, 1);
